@@ -52,7 +52,22 @@ theorem C07_C08_duration_spelling (s t : List Char) (h : norm s = norm t) :
     appLease (some s) = appLease (some t) ∧ appRetention (some s) = appRetention (some t) := by
   simp only [appLease, appRetention, Option.getD_some, toSeconds_of_norm_eq s t h, and_self]
 
+/-- **C01 / C03 (a reloaded server is what its record says).**  After `reload_server` the master's
+    server has the record's declared capacity, partition, traits and parent — the old object is kept
+    only when all four agree — and a server without record is not loaded. -/
+theorem C01_C03_reload (cur rec : Option SrvAttrs) :
+    reloadResult cur rec = rec ∧
+    ∀ c r, cur = some c → rec = some r →
+      (reloadDecision cur rec = .same ↔
+        (c.cap = r.cap ∧ c.label = r.label ∧ c.traits = r.traits ∧ c.parent = r.parent)) := by
+  refine ⟨reloadResult_eq cur rec, ?_⟩
+  rintro c r rfl rfl
+  exact reloadDecision_same c r
+
 /-! ### Non-vacuity -/
+example : reloadDecision (some ⟨(8, 4, 2), 0, 3, 7⟩) (some ⟨(8, 4, 2), 0, 1, 7⟩) = .replaced ∧
+    reloadDecision (some ⟨(8, 4, 2), 0, 3, 7⟩) (some ⟨(8, 4, 2), 0, 3, 7⟩) = .same ∧
+    reloadDecision (some ⟨(8, 4, 2), 0, 3, 7⟩) none = .removed := by decide
 example : appLease (some "19d".toList) = .ok 1641600 ∧ appRetention (some " 1M\n".toList) = .ok (some 60) ∧
     appRetention (some "30x".toList) = .error .exception ∧ appLease (some "".toList) = .error .indexError := by
   decide +kernel
